@@ -10,7 +10,7 @@ import (
 
 // FaultKinds lists the stored-data fault catalogue.
 var FaultKinds = []string{"truncate", "bitflip", "byte-set", "field16-set", "field32-set", "zero-sector", "dup-sector",
-	"swap-sectors", "torn-overwrite", "garbage-tail", "random-sector", "field16-nudge", "byte-nudge", "length32", "length16", "word-copy", "dir-lost-table", "dir-length", "dir-offset", "dir-swap"}
+	"swap-sectors", "torn-overwrite", "garbage-tail", "random-sector", "field16-nudge", "byte-nudge", "length32", "length16", "word-copy", "overlapping-records", "dir-lost-table", "dir-length", "dir-offset", "dir-swap"}
 
 // Fault describes one applied stored-data fault.
 type Fault struct {
@@ -279,4 +279,44 @@ func corruptDirectory(t *tape.Tape, data []byte, dir *Container) ([]byte, Fault)
 		copy(out[rj+8:rj+16], data[rec+8:rec+16])
 		return out, Fault{Kind: "dir-swap", Off: rec + 8, Len: 8, Note: e.Tag + "<->" + dir.Entries[j].Tag}
 	}
+}
+
+// OverlapRecords is a writer artefact rather than a medium fault: the region
+// [lo, hi) holds a table of the shape (format, count, sorted records) - a
+// coverage table or class definition table - as a sloppy font tool writes
+// it: neighbouring records that share a glyph.  Format 1 (2-byte glyph
+// records): one glyph is listed twice.  Format 2 (start, end, value range
+// records): a range starts at the glyph where the previous one ended, either
+// by moving its start only or by shifting the whole range down.
+func OverlapRecords(t *tape.Tape, data []byte, lo, hi int) ([]byte, Fault) {
+	out := append([]byte(nil), data...)
+	if hi > len(out) {
+		hi = len(out)
+	}
+	if hi-lo < 8 {
+		return out, Fault{Kind: "none"}
+	}
+	format := binary.BigEndian.Uint16(out[lo:])
+	count := int(binary.BigEndian.Uint16(out[lo+2:]))
+	switch {
+	case format == 1 && count >= 2 && lo+4+2*count <= hi:
+		i := 1 + t.Draw(count-1)
+		p := lo + 4 + 2*i
+		copy(out[p:p+2], out[p-2:p])
+		return out, Fault{Kind: "overlapping-records", Off: p, Len: 2, Note: "glyph listed twice"}
+	case format == 2 && count >= 2 && lo+4+6*count <= hi:
+		i := 1 + t.Draw(count-1)
+		p := lo + 4 + 6*i
+		prevEnd := binary.BigEndian.Uint16(out[p-4:])
+		start := binary.BigEndian.Uint16(out[p:])
+		end := binary.BigEndian.Uint16(out[p+2:])
+		if t.Chance(1, 2) {
+			binary.BigEndian.PutUint16(out[p:], prevEnd)
+			return out, Fault{Kind: "overlapping-records", Off: p, Len: 2, Note: "range starts at the previous end"}
+		}
+		binary.BigEndian.PutUint16(out[p:], prevEnd)
+		binary.BigEndian.PutUint16(out[p+2:], end-(start-prevEnd))
+		return out, Fault{Kind: "overlapping-records", Off: p, Len: 4, Note: "range shifted onto the previous end"}
+	}
+	return out, Fault{Kind: "none"}
 }
